@@ -207,6 +207,18 @@ func verifyFunctionOpt(P *Program, fn *ssa.Function, props []string, opt func(*E
 	if len(ct.Yields) > 0 {
 		e.yieldsCheck(fn, ct)
 	}
+	// a loop clause must bind to a loop that exists: otherwise the obligation set has changed
+	nloops := 0
+	for _, b := range fn.Blocks {
+		if isLoopHeader(b) {
+			nloops++
+		}
+	}
+	for ord := range ct.Loops {
+		if ord >= nloops && !e.noCut {
+			e.fail("the contract has clauses for loop %d but %s has only %d loop(s)", ord, shortFn(fn.String()), nloops)
+		}
+	}
 	outs := e.execFrom(fr, st, fn.Blocks[0], nil, 0)
 	res.Returns = len(outs)
 	for _, o := range outs {
